@@ -50,6 +50,10 @@ mut('types-default-to-all', 'config.go', '\tif len(c.Types) == 0 {\n\t\treturn n
 # ---- custom types
 mut('suffix-strip-only-dots', 'field.go', 'strings.ReplaceAll(strings.ReplaceAll(c.GetCustomType(), "/", ""), ".", "")', 'strings.ReplaceAll(strings.ReplaceAll(c.GetCustomType(), "/", "_"), ".", "")', ['C17'])
 mut('custom-to-gets-type-instead-of-current', 'gen_copy_to.go', 'j.Id("diags"), j.Id("obj."+f.Name), j.Id("t"), j.Id("tf.Attrs").Index(j.Lit(f.NameSnake)),', 'j.Id("diags"), j.Id("obj."+f.Name), j.Id("t"), j.Nil(),', ['C17'])
+# ---- chain of nullable embedded parents (fix ee725c5)
+mut('embed-chain-only-outermost-recorded', 'field.go', '\t\t\t\t\tf.OptionalEmbedParents...,\n', '\t\t\t\t\tnil...,\n', ['C03', 'C04'])
+mut('embed-chain-allocates-innermost-first', 'gen_embed_parents.go', '\tfor i, p := range f.OptionalEmbedParents {\n\t\tif i > 0 {\n\t\t\ts = s.Line()\n\t\t}', '\tfor i := range f.OptionalEmbedParents {\n\t\tp := f.OptionalEmbedParents[len(f.OptionalEmbedParents)-1-i]\n\t\tif i > 0 {\n\t\t\ts = s.Line()\n\t\t}', ['C04', 'C05'])
+mut('embed-chain-exists-tests-outermost-only', 'gen_embed_parents.go', '\tfor i, p := range f.OptionalEmbedParents {\n\t\tif i > 0 {\n\t\t\ts = s.Op("&&")\n\t\t}', '\tfor i, p := range f.OptionalEmbedParents[:1] {\n\t\tif i > 0 {\n\t\t\ts = s.Op("&&")\n\t\t}', ['C03', 'C05'])
 # ---- determinism
 mut('schema-injected-fields-via-map-order', 'message_build_context.go', '\tv, ok := c.config.InjectedFields[c.GetPath()]\n\tif ok {\n\t\treturn v\n\t}', '\tfor k, v := range c.config.InjectedFields {\n\t\tif strings.HasPrefix(c.GetPath(), k) {\n\t\t\treturn v\n\t\t}\n\t}', ['C14'])
 # ---- separate package
